@@ -409,3 +409,33 @@ m('put-empty-shortcut-any-size', 'R01a', 'cache/disk/disk.go',
 	}
 
 	// Put requests are processed''')
+m('contains-no-hash-length-check', 'R15e', 'cache/disk/disk.go',
+  '''	if len(hash) != sha256HashStrSize {
+		return false, -1
+	}
+
+	if kind == cache.CAS && size <= 0 && hash == emptySha256 {
+		return true, 0
+	}
+''',
+  '''	if kind == cache.CAS && size <= 0 && hash == emptySha256 {
+		return true, 0
+	}
+''')
+m('put-hash-length-after-key', 'R15e', 'cache/disk/disk.go',
+  '''	if len(hash) != sha256HashStrSize {
+		return badReqErr("Invalid hash size: %d, expected: %d", len(hash), sha256.Size)
+	}
+
+	if kind == cache.CAS && size == 0 && hash == emptySha256 {
+		return nil
+	}
+''',
+  '''	if kind == cache.CAS && size == 0 && hash == emptySha256 {
+		return nil
+	}
+	_ = cache.LookupKey(kind, hash)
+	if len(hash) != sha256HashStrSize {
+		return badReqErr("Invalid hash size: %d, expected: %d", len(hash), sha256.Size)
+	}
+''')
